@@ -1,8 +1,107 @@
-/- line-protocol handlers for C17 (stub: not built yet) -/
+/- line-protocol handlers for C17 (partial traces, Dicke reduction) -/
 import Driver.Loop
+import NumqiModel.PartialTrace
+import NumqiModel.Dicke
 
 namespace Numqi.Driver.C17
+open Numqi Numqi.PT Numqi.Dicke
 
-def handle (_args : List String) : String := "bad-op"
+def matOfList (cols : Nat) (l : Array GInt) : Nat → Nat → GInt :=
+  fun x y => l.getD (x * cols + y) 0
+
+def parseGIntArray? (s : String) : Option (Array GInt) := (parseGIntList? s).map List.toArray
+
+/-- `"x:y:re,im"` -/
+def parseTriple? (s : String) : Option (Nat × Nat × GInt) :=
+  match s.splitOn ":" with
+  | [x, y, v] => do
+    let x ← x.toNat?; let y ← y.toNat?; let v ← parseGInt? v
+    pure (x, y, v)
+  | _ => none
+
+def parseTriples? (s : String) : Option (List (Nat × Nat × GInt)) :=
+  if s = "" || s = "-" then some [] else (s.splitOn ";").mapM parseTriple?
+
+def tripleStr (e : Nat × Nat × GInt) : String := s!"{e.1}:{e.2.1}:{e.2.2.toStr}"
+
+def insertSorted (p : Nat × Nat) : List (Nat × Nat) → List (Nat × Nat)
+  | [] => [p]
+  | q :: qs =>
+    if p = q then q :: qs
+    else if p.1 < q.1 || (p.1 = q.1 && p.2 < q.2) then p :: q :: qs
+    else q :: insertSorted p qs
+
+def ratTripleStr (e : Nat × Nat × Rat) : String := s!"{e.1}:{e.2.1}:{QI.ratStr e.2.2}"
+
+def handle (args : List String) : String :=
+  match args with
+  | ["pt", dims, keep, entries] => Id.run do
+      let some dims := parseNatList? dims | return "bad-op"
+      let some keep := parseIntList? keep | return "bad-op"
+      let some l := parseGIntArray? entries | return "bad-op"
+      let D := prodDims dims
+      if l.size ≠ D * D then return "bad-op"
+      if keep.any (· < 0) then return "error:assert"
+      match partialTraceCode dims (keep.map Int.toNat) (matOfList D l) with
+      | none => return "error:assert"
+      | some (n1, f) =>
+        return gintListStr ((List.range n1).flatMap fun a => (List.range n1).map fun b => f a b)
+  | ["pts", dims, keep, entries] => Id.run do
+      let some dims := parseNatList? dims | return "bad-op"
+      let some keep := parseIntList? keep | return "bad-op"
+      let some es := parseTriples? entries | return "bad-op"
+      let D := prodDims dims
+      if es.any (fun e => e.1 ≥ D || e.2.1 ≥ D) then return "bad-op"
+      if keep.any (· < 0) then return "error:assert"
+      let keepIdx := keep.map Int.toNat
+      if !(keepIdx.all (· < dims.length)) then return "error:assert"
+      let m := maskOf dims.length keepIdx
+      let cands := es.foldl (fun acc e =>
+        if part false dims m e.1 = part false dims m e.2.1
+        then insertSorted (part true dims m e.1, part true dims m e.2.1) acc else acc) []
+      let out := cands.filterMap fun p =>
+        let v : GInt := partialTraceSparse dims m es p.1 p.2
+        if v = 0 then none else some (tripleStr (p.1, p.2, v))
+      return s!"{prodSel true dims m} " ++ ";".intercalate out
+  | ["klist", n, d] => Id.run do
+      let some n := n.toNat? | return "bad-op"
+      let some d := d.toNat? | return "bad-op"
+      if d < 2 || n < 1 then return "error:assert"
+      return "|".intercalate ((klist d n).map natListStr)
+  | ["number", n, d] => Id.run do
+      let some n := n.toNat? | return "bad-op"
+      let some d := d.toNat? | return "bad-op"
+      return toString (dickeNumber n d)
+  | ["basis", n, d] => Id.run do
+      let some n := n.toNat? | return "bad-op"
+      let some d := d.toNat? | return "bad-op"
+      if d < 2 || n < 1 then return "error:assert"
+      let N := d ^ n
+      return "|".intercalate ((klist d n).map fun a =>
+        let supp := (List.range N).filter fun x => dickeSq d n a x ≠ 0
+        let v : Rat := match supp with
+          | [] => 0
+          | x :: _ => dickeSq d n a x
+        let uniform := supp.all fun x => dickeSq d n a x = v
+        s!"{natListStr supp}={QI.ratStr v}={if uniform then 1 else 0}")
+  | ["bij", n, d] => Id.run do
+      let some n := n.toNat? | return "bad-op"
+      let some d := d.toNat? | return "bad-op"
+      if d < 2 || n < 1 then return "error:assert"
+      return "|".intercalate ((List.range (d * d)).map fun q =>
+        ";".intercalate ((bijTable n d (q / d) (q % d)).map ratTripleStr))
+  | ["asm", dimA, dimB, len, table, psi] => Id.run do
+      let some dimA := dimA.toNat? | return "bad-op"
+      let some dimB := dimB.toNat? | return "bad-op"
+      let some len := len.toNat? | return "bad-op"
+      let some tabs := (table.splitOn "|").mapM parseTriples? | return "bad-op"
+      let some psi := parseGIntArray? psi | return "bad-op"
+      if tabs.length ≠ dimB * dimB || psi.size ≠ dimA * len then return "bad-op"
+      if tabs.any (fun t => t.any fun e => e.1 ≥ len || e.2.1 ≥ len) then return "bad-op"
+      let tabA := tabs.toArray
+      let f := assembleAB dimB (fun q => tabA.getD q []) (matOfList len psi)
+      let N := dimA * dimB
+      return gintListStr ((List.range N).flatMap fun x => (List.range N).map fun y => f x y)
+  | _ => "bad-op"
 
 end Numqi.Driver.C17
